@@ -191,9 +191,14 @@ fn library_server(c: &Case, kind: c09::Kind, fail_after: Option<usize>) -> Socke
     addr
 }
 
-struct Digest(Vec<u8>);
+/// The caller-supplied digest writer; `1` = milliseconds each write takes (a slow
+/// consumer: the puller must still have cleaned up when a failed pull returns).
+struct Digest(Vec<u8>, u64);
 impl Write for Digest {
     fn write(&mut self, b: &[u8]) -> std::io::Result<usize> {
+        if self.1 > 0 {
+            std::thread::sleep(Duration::from_millis(self.1));
+        }
         self.0.extend_from_slice(b);
         Ok(b.len())
     }
@@ -206,6 +211,8 @@ impl Write for Digest {
 fn run_puller(c: &Case, addr: SocketAddr, dest: &Path, reject: bool) -> Result<Option<Vec<u8>>, String> {
     let want = content(c);
     let tl = c.trailer_len as usize;
+    // every fourth case has a slow digest (bounded: at most ~40 writes of 25 ms)
+    let slow_ms: u64 = if c.seed % 4 == 1 && (c.len / c.chunk.max(1)) <= 40 { 25 } else { 0 };
     match c.puller {
         Puller::ToFile | Puller::ToBeveFile | Puller::ToBeveZstFile | Puller::TrailerVerified | Puller::Value | Puller::ToVec => {
             let client = Client::connect(addr).map_err(|e| e.to_string())?;
@@ -215,7 +222,7 @@ fn run_puller(c: &Case, addr: SocketAddr, dest: &Path, reject: bool) -> Result<O
                 Puller::ToBeveZstFile => pull_to_beve_zst_file(&client, "res", dest)
                     .map(|_| Some(zstd_wire(&want)))
                     .map_err(|e| e.to_string()),
-                Puller::TrailerVerified => pull_to_file_trailer_verified(&client, "res", dest, tl, Digest(Vec::new()), |d, t| {
+                Puller::TrailerVerified => pull_to_file_trailer_verified(&client, "res", dest, tl, Digest(Vec::new(), slow_ms), |d, t| {
                     verify_trailer(&d.0, t, reject)
                 })
                 .map(|_| Some(want[..want.len().saturating_sub(tl)].to_vec()))
@@ -231,7 +238,7 @@ fn run_puller(c: &Case, addr: SocketAddr, dest: &Path, reject: bool) -> Result<O
             let client = AsyncClient::connect(addr).await.map_err(|e| e.to_string())?;
             match c.puller {
                 Puller::ToFileAsync => pull_to_file_async(&client, "res", dest).await.map(|_| Some(want)).map_err(|e| e.to_string()),
-                Puller::VerifiedAsync => pull_to_file_verified_async(&client, "res", dest, Digest(Vec::new()), |d| {
+                Puller::VerifiedAsync => pull_to_file_verified_async(&client, "res", dest, Digest(Vec::new(), slow_ms), |d| {
                     if reject {
                         Err(RepeError::Io(std::io::Error::other("verifier rejects")))
                     } else if d.0 != content(c) {
@@ -243,7 +250,7 @@ fn run_puller(c: &Case, addr: SocketAddr, dest: &Path, reject: bool) -> Result<O
                 .await
                 .map(|_| Some(want))
                 .map_err(|e| e.to_string()),
-                Puller::TrailerVerifiedAsync => pull_to_file_trailer_verified_async(&client, "res", dest, tl, Digest(Vec::new()), |d, t| {
+                Puller::TrailerVerifiedAsync => pull_to_file_trailer_verified_async(&client, "res", dest, tl, Digest(Vec::new(), slow_ms), |d, t| {
                     verify_trailer(&d.0, t, reject)
                 })
                 .await
